@@ -77,6 +77,46 @@ pub fn run(out: &mut Out, tier: &str, rng: &mut Rng) {
         }
     });
     drop(bus);
+    // ---- a filter INSTALLED on a network (ControlNetwork::with_filter) decides what recv delivers: accept and reject lists of
+    // 0..2 entries that match / miss the probe, the probe frame injected on the emulated bus; "0" = nothing delivered in 300 ms
+    {
+        let bus = Bus::attach("vcan17f");
+        for (k, &idraw) in [0x0CB3_4A27u32, 0x18FE_CA00, 0x18EA_FF27, 0x18EF_2700].iter().enumerate() {
+            let id = Id::new(idraw);
+            let hit = FilterItem::default().set_pgn(id.pgn_raw());
+            let hit2 = FilterItem::default().set_source_address(id.source_address());
+            let miss = FilterItem::default().set_pgn(id.pgn_raw() ^ 0x100);
+            let miss2 = FilterItem::default().set_source_address(id.source_address().wrapping_add(1));
+            let t = |g: u32| format!("*.{}.*.*", g);
+            let ts = |a: u8| format!("*.*.{}.*", a);
+            let lists: Vec<(Vec<FilterItem>, String)> = vec![
+                (vec![], "-".into()),
+                (vec![hit], t(id.pgn_raw())),
+                (vec![miss], t(id.pgn_raw() ^ 0x100)),
+                (vec![miss, hit2], format!("{};{}", t(id.pgn_raw() ^ 0x100), ts(id.source_address()))),
+                (vec![miss, miss2], format!("{};{}", t(id.pgn_raw() ^ 0x100), ts(id.source_address().wrapping_add(1)))),
+            ];
+            for accept in [true, false] {
+                for (items, txt) in &lists {
+                    // a sample in the quick tier: every list for the first probe, two lists for the others
+                    if !thorough && k > 0 && items.len() != 1 {
+                        continue;
+                    }
+                    let mut f = if accept { Filter::accept() } else { Filter::reject() };
+                    for it in items {
+                        f.push(*it);
+                    }
+                    let got = rt.block_on(async {
+                        let mut net = ControlNetwork::bind("vcan17f", &name).expect("bind on emulated bus").with_filter(f);
+                        bus.inject(&Bus::raw(idraw | 0x8000_0000, 8, &[1, 2, 3, 4, 5, 6, 7, 8]));
+                        tokio::time::timeout(std::time::Duration::from_millis(300), net.recv()).await.is_ok()
+                    });
+                    out.count(&format!("fnet {} items={}", if accept { "A" } else { "R" }, items.len()));
+                    out.case(&format!("fnet {} {} {:08X}", if accept { "A" } else { "R" }, txt, idraw), if got { "1" } else { "0" }, !items.is_empty());
+                }
+            }
+        }
+    }
     // ---- filters ----
     let probe_ids: Vec<u32> = {
         let mut v = vec![0x0CB3_4A27u32, 0x18FE_CA00, 0x18EA_FF27, 0x0CFF_0227, 0x18EF_2700, 0x1CF0_0427];
